@@ -141,6 +141,7 @@ type Exec struct {
 	callLog    []callRec
 	curCallee  *ssa.Function
 	allAllocs  []string
+	lastDiscoverAlloc int
 	pointeesOnly bool
 	heapInvDone  map[string]bool
 }
@@ -1004,6 +1005,7 @@ func (e *Exec) loopHeader(f *frame, li *loopInfo, loops map[*ssa.BasicBlock]*loo
 	auto := e.autoInvariants(f, li, phis, entryVals)
 	// discovery pass: which components change in the body?
 	modified, full := e.discoverLoopMods(f, li, loops, order, h, g, phis)
+	bodyMaxAlloc := e.lastDiscoverAlloc
 	// havoc
 	h2 := h.clone()
 	if full {
@@ -1017,6 +1019,20 @@ func (e *Exec) loopHeader(f *frame, li *loopInfo, loops map[*ssa.BasicBlock]*loo
 		nv := e.freshVal("phi_"+p.Comment, p.Type())
 		// keep structural info only if loop-invariant (not tracked) -> none
 		f.vals[p] = nv
+		// a loop-carried reference is an object that existed before, or one allocated no later than
+		// the end of the loop body: never an object this function allocates after the loop
+		var base string
+		switch e.s.sortOf(p.Type()) {
+		case "Ref":
+			base = nv.T
+		case "Slice":
+			base = "(sl_base " + nv.T + ")"
+		case "Iface":
+			base = "(if_ref " + nv.T + ")"
+		}
+		if base != "" {
+			e.s.assert(fmt.Sprintf("(>= %s (- %d))", base, bodyMaxAlloc))
+		}
 	}
 	e.reassertPrivate(h, h2)
 	for _, c := range invs {
@@ -1166,6 +1182,7 @@ func (e *Exec) discoverLoopMods(f *frame, li *loopInfo, loops map[*ssa.BasicBloc
 	f.defers = f.defers[:savedDef]
 	e.priv = savedPriv
 	e.loopCtx = e.loopCtx[:savedLoopCtx]
+	e.lastDiscoverAlloc = e.allocN
 	e.allocN = savedAlloc
 	e.allAllocs = savedAll
 	e.callOrd = savedOrd
